@@ -74,7 +74,8 @@ def flag_like(v):
 def bit_and_const(t, mask: int):
     """t & mask for non-negative t and constant mask, as div/mod terms."""
     if mask < 0:
-        raise Unsupported("negative mask")
+        # t & ~k == t - (t & k) for non-negative t (k = ~mask >= 0)
+        return t - bit_and_const(t, ~mask)
     out = z3.IntVal(0)
     # group contiguous runs of ones
     bit = 0
@@ -423,6 +424,8 @@ def py_contains(it, hay, needle):
         if not hay.items:
             return SBool(False)
         return Or(*[py_eq(it, needle, k) for k, _ in hay.items])
+    if isinstance(hay, SNoneT):
+        it.raise_(TypeError, "argument of type 'NoneType' is not iterable")
     return contains(hay, needle)
 
 
@@ -710,6 +713,8 @@ def call_method(it, obj, name, args, kwargs):
         r = concrete_fallback(obj, name, args, kwargs)
         if r is not NotImplemented:
             return r
+        if isinstance(obj, SNoneT) and not hasattr(None, name):
+            it.raise_(AttributeError, f"'NoneType' object has no attribute '{name}'")
         raise Unsupported(f"method {obj.kind}.{name}")
     it.ex.note("lib", f"{obj.kind}.{name}")
     return fn(it, obj, *args, **kwargs)
@@ -1727,7 +1732,7 @@ def struct_fields(fmt):
             continue
         n = int(num) if num else 1
         num = ""
-        if c in "BHILQ":
+        if c in "BHILQbhilq":
             out.extend([c] * n)
         elif c == "s":
             out.append(("s", n))
@@ -1764,6 +1769,8 @@ def struct_unpack(it, fmt, data, exact, offset=None):
         v = z3.IntVal(0)
         for k in range(w):
             v = v * 256 + scode(data.t, simp(pos + k))
+        if f.islower():  # signed: two's complement
+            v = z3.If(v >= 256 ** w // 2, v - 256 ** w, v)
         out.append(SInt(simp(v)))
         pos = pos + w
     return STuple(out)
@@ -1787,6 +1794,9 @@ def struct_pack(it, fmt, vals):
             v = SInt(z3.If(v.t, 1, 0))
         if not isinstance(v, (SInt, SEnum)):
             it.raise_(struct.error, "required argument is not an integer")
+        lo, hi = (-(256 ** w // 2), 256 ** w // 2) if f.islower() else (0, 256 ** w)
+        if f.islower():
+            v = SInt(z3.If(v.t < 0, v.t + 256 ** w, v.t)) if it.branch(SBool(z3.And(v.t >= lo, v.t < hi))) else it.raise_(struct.error, "argument out of range")
         if not it.branch(SBool(z3.And(v.t >= 0, v.t < 256 ** w))):
             it.raise_(struct.error, "argument out of range")
         for k in range(w):
